@@ -47,11 +47,11 @@ MENUS = {
                  "onJoin": ["return", "raise", "pending"],
                  "onLeave": ["return", "raise", "raise_before", "pending"]},
 }
-ILLEGAL_EVENT = {"pre": ["GOODBYE", "ERROR"], "post": ["WELCOME", "CHALLENGE"]}
+ILLEGAL_EVENT = {"pre": ["GOODBYE", "ERROR"], "post": ["ABORT", "WELCOME", "CHALLENGE"]}
 PROBES_PRE = ["HELLO", "AUTHENTICATE", "GOODBYE", "ERROR", "PUBLISHED", "SUBSCRIBED", "UNSUBSCRIBED",
               "EVENT", "RESULT", "REGISTERED", "UNREGISTERED", "INVOCATION", "INTERRUPT", "CALL",
               "PUBLISH"]
-PROBES_POST = ["HELLO", "WELCOME", "CHALLENGE", "AUTHENTICATE"]
+PROBES_POST = ["HELLO", "WELCOME", "ABORT", "CHALLENGE", "AUTHENTICATE"]
 PROBES_POST_CLIENT = ["CALL", "PUBLISH", "SUBSCRIBE", "REGISTER", "YIELD", "CANCEL", "UNSUBSCRIBE"]
 CB = ("onConnect", "onChallenge", "onWelcome", "onJoin", "onLeave", "onDisconnect")
 KINDS = ("call", "publish", "subscribe", "register", "unsubscribe", "unregister")
